@@ -115,7 +115,27 @@ def shuffle_order(ctx, facts, rule):
     v_bb, v_t, v_s = ver[0]
     ok_tags = tags[0][2] is not None and all(flow.dominates(dom, tags[0][2]["ready"], sb) for sb, _, _ in shuf)
     ctx.ob(rule, "tags-before-shuffle", ok_tags, "MAC tags are appended before any shuffle round" if ok_tags else "rows are shuffled before the MAC tags were computed", site_of(b, tags[0][0]))
-    ok_sv = all(s is not None and flow.dominates(dom, b.term(sb)["t"], v_bb) or True for sb, _, s in shuf)
+    # the MAC keys stay secret until all shuffle rounds are over: reveal_keys is called only by verify_shuffle,
+    # and verify_shuffle is called only after the (role-selected) shuffle round settled with `?`
+    callers = set()
+    for ob_ in facts.non_test_bodies():
+        for bb2, t2 in ob_.calls():
+            if (F.callee(t2)[0] or "").endswith("shuffle::malicious::reveal_keys"):
+                callers.add(ob_.root)
+    okc = bool(callers) and callers <= {"protocol::ipa_prf::shuffle::malicious::verify_shuffle"}
+    ctx.ob(rule, "keys-opened-only-in-verify", okc, "reveal_keys is called only from verify_shuffle" if okc else f"the shuffle MAC keys are opened outside verify_shuffle ({sorted(callers)}): a helper that learns the keys before the last shuffle message can forge tags", site_of(b))
+    shuffled_q = None
+    for bb2, t2 in b.calls():
+        if (F.callee(t2)[0] or "") == "std::ops::Try::branch":
+            e2 = str(flow.expr_of(b, t2["args"][0]))
+            if "_shuffle_for_shard" in e2 or "Future::poll" in e2 and any(flow.dominates(dom, sb, bb2) for sb, _, _ in shuf):
+                qq = flow.question_mark(b, F.op_local(t2["args"][0]))
+                if qq and all(not flow.dominates(dom, qq[1], sb) for sb, _, _ in shuf):
+                    shuffled_q = qq
+    # simpler and robust: every path from entry to verify_shuffle passes through one of the three shuffle calls' settlement
+    readies = [s_["ready"] for _, _, s_ in shuf if s_ is not None]
+    ok_sv = len(readies) == len(shuf) and v_bb not in b.reachable(0, avoid=frozenset(readies))
+    ctx.ob(rule, "shuffle-before-verify", ok_sv, "verification (and with it the opening of the MAC keys) starts only after this helper's shuffle round completed" if ok_sv else "verify_shuffle can start before the shuffle round settled", site_of(b, v_bb))
     ctx.ob(rule, "verify-awaited", v_s is not None and v_s["q"] is not None, "verify_shuffle is awaited and its error propagated with `?`" if v_s and v_s["q"] else "verify_shuffle's result is not awaited / not propagated: a failed verification is ignored", site_of(b, v_bb))
     for k, (tb, tt) in enumerate(trunc):
         ok = v_s is not None and v_s["q"] is not None and flow.dominates(dom, v_s["q"][1], tb)
